@@ -16,6 +16,7 @@
 
 #include <array>
 #include <type_traits>
+#include <cstddef>
 #include <cstdint>
 #include <cassert>
 #include <memory>
@@ -231,7 +232,9 @@ private:
 
 private:
 	const anydata_internal_::AnyDataFunctions * functions;
-	std::array<std::uint8_t, maxSize> buffer;
+	// The buffer holds objects of arbitrary types constructed by placement new,
+	// it must be aligned for any of them, std::uint8_t alone only guarantees alignment 1.
+	alignas(std::max_align_t) std::array<std::uint8_t, maxSize> buffer;
 };
 
 template <typename ...Ts>
